@@ -186,7 +186,11 @@ def scan_trash(snap, tdir, read):
                 e["info"] = p
                 e["itype"] = n.t
                 if n.t == "f":
-                    raw = read(p)
+                    try:
+                        raw = read(p)
+                    except OSError:
+                        # (the snapshot is older than the disk: the file is gone by now)
+                        continue
                     e["raw"] = raw
                     pb, db, _ = parse_info(raw)
                     e["path"] = None if pb is None else pct_decode(pb)
